@@ -39,11 +39,13 @@ Definition wrap_model (signed : bool) (n x : Z) : Z :=
 Definition elem_gt (x : num) (b : Z) : bool :=      (* new_val > val_max *)
   match x with
   | NI z => b <? z
-  | NF v => f64_ltb (f64_of_Z b) v end.
+  | NF v => f64_ltb (f64_of_Z b) v
+  | NR q => dy_ltb (dy_of_Z b) q end.
 Definition elem_lt (x : num) (b : Z) : bool :=      (* new_val < val_min *)
   match x with
   | NI z => z <? b
-  | NF v => f64_ltb v (f64_of_Z b) end.
+  | NF v => f64_ltb v (f64_of_Z b)
+  | NR q => dy_ltb q (dy_of_Z b) end.
 
 (* objects.py:845-847 — one decision for the whole array, on the UNSCALED values:
    np.max(val) >= 2**64 or np.min(val) < -2**64 or n_word >= 64 *)
@@ -55,6 +57,7 @@ Definition num_big64 (x : num) : bool :=
   | NF v => match f64_floor_Z v with
             | Some fl => (2^64 <=? fl) || (fl <? - 2^64)
             | None => false end
+  | NR q => let fl := round_dy Floor q in (2^64 <=? fl) || (fl <? - 2^64)
   end.
 (* the `_use_pyint` decision of set_val (objects.py, after the 64-bit fix): the old
    test on the unscaled values, or — for integer inputs other than uint64 and an integer
@@ -63,15 +66,37 @@ Definition conv_factor_int (f : fmt) (raw : bool) : option Z :=
   if raw then Some 1 else if 0 <=? nf f then Some (2^(nf f)) else None.
 Definition num_abs_int (x : num) : Z :=
   match num_int x with Some z => Z.abs z | None => 0 end.
-Definition obj_path (f : fmt) (raw : bool) (a : arr) : bool :=
+(* `_is_int_val`: an integer dtype, or an object array holding only Python integers *)
+Definition arr_is_int (a : arr) : bool :=
+  match a with
+  | AI64 _ | AU64 _ => true
+  | AF64 _ => false
+  | AObj l => forallb (fun x => match x with NI _ => true | _ => false end) l end.
+(* an object array holding exact rationals (a raw value rescaled by utils.scale_raw) *)
+Definition arr_has_frac (a : arr) : bool :=
+  match a with AObj l => existsb (fun x => match x with NR _ => true | _ => false end) l | _ => false end.
+Definition arr_absmax_ge (a : arr) (b : Z) : bool := existsb (fun x => b <=? num_abs_int x) (arr_nums a).
+(* negative n_frac (the factor 1/(1 << -n_frac) is a float): integer values of more than 53 bits are
+   scaled with the exact rational factor Fraction(1, 1 << -n_frac) instead *)
+Definition exact_factor (f : fmt) (raw : bool) (a : arr) : bool :=
+  negb (arr_has_frac a) && arr_is_int a && negb raw && (nf f <? 0) && arr_absmax_ge a (2^53).
+Definition vdt_is_int (vd : vdt) : bool := match vd with VInt => true | VFloat => false end.
+Definition obj_path (f : fmt) (raw : bool) (a : arr) (vd : vdt) : bool :=
   existsb num_big64 (arr_nums a) || (64 <=? nw f) ||
   match conv_factor_int f raw, a with
   | Some k, AI64 l => (2^63 <=? k) || existsb (fun z => 2^63 <=? Z.abs z * k) l
   | Some k, AU64 l => if raw then false          (* raw unsigned codes keep their reinterpretation as int64 *)
                       else (2^63 <=? k) || existsb (fun z => 2^63 <=? Z.abs z * k) l
-  | Some k, AObj l => (2^63 <=? k) || existsb (fun x => 2^63 <=? num_abs_int x * k) l
+  | Some k, AObj l => arr_is_int a && ((2^63 <=? k) || existsb (fun x => 2^63 <=? num_abs_int x * k) l)
   | _, _ => false
-  end.
+  end ||
+  (* integers of more than 53 bits are not cast to a float value type *)
+  match conv_factor_int f raw, a with
+  | Some _, AU64 _ => negb raw && negb (vdt_is_int vd) && arr_absmax_ge a (2^53)
+  | Some _, _ => arr_is_int a && negb (vdt_is_int vd) && arr_absmax_ge a (2^53)
+  | None, _ => false
+  end ||
+  arr_has_frac a || exact_factor f raw a.
 
 (* val.astype(original_vdtype) on the non-object path (objects.py:851) *)
 Definition astype_vd (a : arr) (vd : vdt) : outcome (list num) :=
@@ -97,23 +122,30 @@ Definition scale_elem (f : fmt) (raw machine : bool) (x : num) : outcome num :=
               then (if fits_i64 (2^(nf f)) then Ok (NI (wrap_i64 (z * 2^(nf f)))) else Exc OverflowError)
               else Ok (NI (z * 2^(nf f)))
     | NF v => Ok (NF (f64_mul_pow2 v (nf f)))
+    | NR _ => Unmodelled                                   (* (rationals only arrive as raw values) *)
     end
-  else Ok (NF (f64_mul_pow2 (num_to_f64 x) (nf f))).          (* float factor 1/(1 << -n_frac) *)
+  else match x with
+       | NR _ => Unmodelled
+       | _ => Ok (NF (f64_mul_pow2 (num_to_f64 x) (nf f))) end.   (* float factor 1/(1 << -n_frac) *)
 
 (* _round: identity on integers (machine or Python), NumPy rounding on floats — float64
    arrays as a whole, float elements of object arrays one by one (objects.py _round) *)
 Definition round_elem (r : rmode) (is_obj : bool) (x : num) : num :=
   match x with
   | NI z => NI z
-  | NF v => NF (np_round r v) end.
+  | NF v => NF (np_round r v)
+  | NR q => NI (round_dy r q) end.              (* Fxp._round_exact: round / math.floor / math.ceil / math.trunc of a Fraction *)
 
 (* the integer an element denotes once it is cast to the storage dtype *)
 Definition elem_to_code (x : num) : outcome Z :=
   match x with
   | NI z => Ok z
-  | NF v => of_option (astype_i64 v) end.
+  | NF v => of_option (astype_i64 v)
+  | NR _ => Unmodelled end.                     (* (every rational has been rounded to an integer before) *)
 Definition elem_to_int (x : num) : outcome Z :=            (* int(x) on the object path *)
-  match num_int x with Some z => Ok z | None => Exc OverflowError end.
+  match x with
+  | NR _ => Unmodelled                          (* (every rational has been rounded to an integer before) *)
+  | _ => match num_int x with Some z => Ok z | None => Exc OverflowError end end.
 
 (* _overflow_action on one element: saturate = clip, wrap = utils.wrap *)
 Definition overflow_elem (f : fmt) (o : omode) (is_obj : bool) (x : num) : outcome Z :=
@@ -125,9 +157,7 @@ Definition overflow_elem (f : fmt) (o : omode) (is_obj : bool) (x : num) : outco
   | Wrap =>
       (* utils.wrap: Python integers for wide words and for object arrays, int64 otherwise *)
       bind (if (64 <=? nw f) || is_obj then elem_to_int x
-            else match x with
-                 | NI z => Ok z
-                 | NF v => of_option (astype_i64 v) end)
+            else elem_to_code x)
            (fun z => Ok (wrap_model (sg f) (nw f) z))
   end.
 
@@ -141,7 +171,8 @@ Definition inacc_elem (f : fmt) (raw is_obj : bool) (x : num) (c : Z) : bool :=
   match x with
   | NI z => if is_obj then negb (match f64_to_dy b with Some d => dy_eqb d (dy_of_Z z) | None => false end)
             else negb (f64_eqb (f64_of_Z z) b)
-  | NF v => negb (f64_eqb v b) end.
+  | NF v => negb (f64_eqb v b)
+  | NR q => negb (dy_eqb q (dy_of_Z c)) end.    (* raw rationals: np.equal(val, new_val) on Fractions and integers is exact *)
 
 Record wres := { w_codes : list Z; w_ovf : bool; w_unf : bool; w_inacc : bool }.
 
@@ -158,11 +189,23 @@ Definition elem_pipe (f : fmt) (r : rmode) (o : omode) (raw is_obj : bool) (x : 
    raised by this write.  (The code performs each stage on the whole array before the
    next; since the stages are elementwise the result is the same, except for WHICH
    exception is reported when several elements fail in different stages.) *)
+(* the same pipeline with the exact rational factor (exact_factor): z * Fraction(1, 1 << -n_frac), rounded
+   exactly, overflow on Python integers, and the inaccuracy test new_val / conv_factor == val on rationals *)
+Definition elem_pipe_q (f : fmt) (r : rmode) (o : omode) (x : num) : outcome eres :=
+  match x with
+  | NI z =>
+      let rd := round_dy r {| dm := z; de := nf f |} in
+      bind (overflow_elem f o true (NI rd)) (fun c =>
+      Ok {| e_code := c; e_gt := cmax f <? rd; e_lt := rd <? cmin f;
+            e_inacc := negb (dy_eqb (dy_of_Z z) {| dm := c; de := - nf f |}) |})
+  | _ => Unmodelled end.
+
 Definition set_val_real (f : fmt) (r : rmode) (o : omode) (raw : bool) (a : arr) (vd : vdt)
   : outcome wres :=
-  let is_obj := obj_path f raw a in
+  let is_obj := obj_path f raw a vd in
+  let xq := exact_factor f raw a in
   bind (if is_obj then Ok (arr_nums a) else astype_vd a vd) (fun vals =>
-  bind (mapM (elem_pipe f r o raw is_obj) vals) (fun rs =>
+  bind (mapM (fun x => if xq then elem_pipe_q f r o x else elem_pipe f r o raw is_obj x) vals) (fun rs =>
   Ok {| w_codes := map e_code rs; w_ovf := existsb e_gt rs; w_unf := existsb e_lt rs;
         w_inacc := existsb e_inacc rs |})).
 
